@@ -31,7 +31,7 @@ ASSUMPTIONS = [
     "unique ids are distinct per spreadsheet row (artificial fee rows share the id of their acquisition and are told apart by table)",
 ]
 
-HIST = gen.GenCfg(min_steps=4, max_steps=12, max_exchanges=2, max_holders=2, bulk_prob=0.05)
+HIST = gen.GenCfg(min_steps=4, max_steps=12, max_exchanges=2, max_holders=2, bulk_prob=0.05, fiat_columns=True)
 EVENT_COLS = (5, 6, 7, 8, 9, 10, 11)
 LOT_COLS = (12, 13, 14, 15, 16, 17, 18, 19)
 
